@@ -1,4 +1,235 @@
-import SynapModel.Kernels.NN
+import Proofs.PointwiseCalc
+import Mathlib.Analysis.SpecialFunctions.Exp
+import Mathlib.Analysis.SpecialFunctions.Log.Basic
+import Mathlib.Analysis.SpecialFunctions.Exponential
+import Mathlib.Analysis.Complex.ExponentialBounds
+/-!
+# C09 — Stability-critical ops stay finite and accurate for large-magnitude inputs (logical core)
+
+What a theorem over ℝ can carry: (a) the formula the kernel evaluates equals the mathematical
+definition *exactly* (the max-shift and the log-sum-exp rearrangements change nothing), and
+(b) every intermediate quantity the kernel forms lies in a range far from the float32 overflow
+threshold, or is an overflow that is provably annihilated afterwards.  Rounding-error
+propagation and IEEE overflow semantics themselves are observed by the check (the model is
+executed at Float32), not proved.
+-/
 namespace Props.C09
-theorem placeholder : True := trivial
+open Synap Synap.NDArray Synap.Kernels Proofs.Core Proofs.Calc
+
+
+/-! ### helper lemmas on list sums -/
+
+private theorem sum_exp_shift (xs : List ℝ) (m : ℝ) :
+    (xs.map (fun t => Real.exp (t - m))).sum = (xs.map Real.exp).sum / Real.exp m := by
+  induction xs with
+  | nil => simp
+  | cons a l ih =>
+    rw [List.map_cons, List.sum_cons, List.map_cons, List.sum_cons, ih, Real.exp_sub]
+    ring
+
+private theorem sum_map_nonneg (xs : List ℝ) (f : ℝ → ℝ) (hf : ∀ x ∈ xs, 0 ≤ f x) :
+    0 ≤ (xs.map f).sum := by
+  induction xs with
+  | nil => simp
+  | cons a l ih =>
+    simp only [List.map_cons, List.sum_cons]
+    have h1 := hf a (List.mem_cons_self ..)
+    have h2 := ih (fun x hx => hf x (List.mem_cons_of_mem _ hx))
+    linarith
+
+private theorem le_sum_map_of_mem (xs : List ℝ) (f : ℝ → ℝ) (hf : ∀ x ∈ xs, 0 ≤ f x) (m : ℝ)
+    (hmem : m ∈ xs) : f m ≤ (xs.map f).sum := by
+  induction xs with
+  | nil => simp at hmem
+  | cons a l ih =>
+    simp only [List.map_cons, List.sum_cons]
+    have h1 := hf a (List.mem_cons_self ..)
+    have h2 := sum_map_nonneg l f (fun x hx => hf x (List.mem_cons_of_mem _ hx))
+    rcases List.mem_cons.mp hmem with rfl | h
+    · linarith
+    · have := ih (fun x hx => hf x (List.mem_cons_of_mem _ hx)) h
+      linarith
+
+private theorem sum_map_le_length (xs : List ℝ) (f : ℝ → ℝ) (hf : ∀ x ∈ xs, f x ≤ 1) :
+    (xs.map f).sum ≤ xs.length := by
+  induction xs with
+  | nil => simp
+  | cons a l ih =>
+    simp only [List.map_cons, List.sum_cons, List.length_cons]
+    have h1 := hf a (List.mem_cons_self ..)
+    have h2 := ih (fun x hx => hf x (List.mem_cons_of_mem _ hx))
+    push_cast
+    linarith
+
+private theorem sum_exp_pos (xs : List ℝ) (hne : xs ≠ []) : 0 < (xs.map Real.exp).sum := by
+  cases xs with
+  | nil => exact absurd rfl hne
+  | cons a l =>
+    have h := le_sum_map_of_mem (a :: l) Real.exp (fun x _ => (Real.exp_pos x).le) a (List.mem_cons_self ..)
+    exact lt_of_lt_of_le (Real.exp_pos a) h
+
+/-- the shifted sum lies in `[1, n]` -/
+private theorem shifted_sum_bounds (xs : List ℝ) (m : ℝ) (hm : ∀ x ∈ xs, x ≤ m) (hmem : m ∈ xs) :
+    1 ≤ (xs.map (fun x => Real.exp (x - m))).sum ∧ (xs.map (fun x => Real.exp (x - m))).sum ≤ xs.length := by
+  constructor
+  · have h := le_sum_map_of_mem xs (fun x => Real.exp (x - m)) (fun x _ => (Real.exp_pos _).le) m hmem
+    simpa using h
+  · exact sum_map_le_length xs _ (fun x hx => Real.exp_le_one_iff.mpr (sub_nonpos.mpr (hm x hx)))
+
+private theorem log_shifted_sum (xs : List ℝ) (hne : xs ≠ []) (m : ℝ) :
+    m + Real.log ((xs.map (fun t => Real.exp (t - m))).sum) = Real.log ((xs.map Real.exp).sum) := by
+  rw [sum_exp_shift, Real.log_div (sum_exp_pos xs hne).ne' (Real.exp_pos m).ne', Real.log_exp]
+  ring
+
+/-- **float32 really overflows at the magnitudes of the property**: `e^100 > 3.5·10^38 > FLT_MAX`,
+    so an unshifted `exp` of a logit of 100 is `inf` — the shifts below are necessary. -/
+theorem exp_100_overflows_f32 : (3.5e38 : ℝ) < Real.exp 100 := by
+  have h1 : (2.7182818283 : ℝ) < Real.exp 1 := Real.exp_one_gt_d9
+  have h2 : Real.exp 100 = Real.exp 1 ^ 100 := by
+    rw [← Real.exp_nat_mul]; norm_num
+  rw [h2]
+  have h3 : (2.7 : ℝ) ^ 100 < Real.exp 1 ^ 100 :=
+    pow_lt_pow_left₀ (by linarith) (by norm_num) (by norm_num)
+  have h4 : (3.5e38 : ℝ) < 2.7 ^ 100 := by norm_num
+  linarith
+
+/-- **softmax: after the max-shift every exponent is ≤ 0**, so each `exp` lies in `(0, 1]`, the sum
+    lies in `[1, n]`, and every output lies in `(0, 1]` — whatever the magnitude of the logits. -/
+theorem softmax_shift_range (xs : List ℝ) (hne : xs ≠ []) (m : ℝ) (hm : ∀ x ∈ xs, x ≤ m) (hmem : m ∈ xs) :
+    (∀ x ∈ xs, x - m ≤ 0 ∧ 0 < Real.exp (x - m) ∧ Real.exp (x - m) ≤ 1) ∧
+    1 ≤ (xs.map (fun x => Real.exp (x - m))).sum ∧ (xs.map (fun x => Real.exp (x - m))).sum ≤ xs.length ∧
+    (∀ x ∈ xs, 0 < Real.exp (x - m) / (xs.map (fun t => Real.exp (t - m))).sum ∧
+               Real.exp (x - m) / (xs.map (fun t => Real.exp (t - m))).sum ≤ 1) := by
+  obtain ⟨hlo, hhi⟩ := shifted_sum_bounds xs m hm hmem
+  have hpos : 0 < (xs.map (fun x => Real.exp (x - m))).sum := lt_of_lt_of_le one_pos hlo
+  refine ⟨fun x hx => ⟨sub_nonpos.mpr (hm x hx), Real.exp_pos _,
+    Real.exp_le_one_iff.mpr (sub_nonpos.mpr (hm x hx))⟩, hlo, hhi, fun x hx => ⟨?_, ?_⟩⟩
+  · exact div_pos (Real.exp_pos _) hpos
+  · rw [div_le_one hpos]
+    exact le_sum_map_of_mem xs (fun t => Real.exp (t - m)) (fun t _ => (Real.exp_pos _).le) x hx
+
+/-- **the shift changes nothing**: `exp(x−m)/Σ exp(t−m) = exp(x)/Σ exp(t)` for any `m` -/
+theorem softmax_shift_exact (xs : List ℝ) (hne : xs ≠ []) (m x : ℝ) :
+    Real.exp (x - m) / (xs.map (fun t => Real.exp (t - m))).sum = Real.exp x / (xs.map Real.exp).sum := by
+  rw [sum_exp_shift, Real.exp_sub]
+  have he : Real.exp m ≠ 0 := (Real.exp_pos m).ne'
+  field_simp
+
+/-- **log_softmax as computed is exactly `x − log Σ exp(t)`**, and its intermediates are tame:
+    the shifted sum lies in `[1, n]`, so its logarithm lies in `[0, log n]`. -/
+theorem log_softmax_exact (xs : List ℝ) (hne : xs ≠ []) (m x : ℝ) (hm : ∀ t ∈ xs, t ≤ m) (hmem : m ∈ xs) :
+    x - (m + Real.log ((xs.map (fun t => Real.exp (t - m))).sum)) = x - Real.log ((xs.map Real.exp).sum) ∧
+    0 ≤ Real.log ((xs.map (fun t => Real.exp (t - m))).sum) ∧
+    Real.log ((xs.map (fun t => Real.exp (t - m))).sum) ≤ Real.log xs.length := by
+  obtain ⟨hlo, hhi⟩ := shifted_sum_bounds xs m hm hmem
+  refine ⟨by rw [log_shifted_sum xs hne m], Real.log_nonneg hlo, ?_⟩
+  exact Real.log_le_log (lt_of_lt_of_le one_pos hlo) hhi
+
+/-- the backward of log_softmax, `g − softmax·Σg`, involves no division by a probability -/
+theorem log_softmax_backward_bounded (ls : ℝ) (hls : ls ≤ 0) : 0 < Real.exp ls ∧ Real.exp ls ≤ 1 := by
+  exact ⟨Real.exp_pos _, Real.exp_le_one_iff.mpr hls⟩
+
+/-- **sigmoid**: the value lies strictly between 0 and 1; for `x ≥ 0` the intermediate `exp(−x)` is
+    in `(0, 1]`; for `x < 0` it may be astronomically large, but `1/(1 + E) ≤ 1/E`, so an overflow of
+    `E` to `+∞` is annihilated to the correctly rounded value 0 (and never to NaN). -/
+theorem sigmoid_range (x : ℝ) :
+    0 < 1 / (1 + Real.exp (-x)) ∧ 1 / (1 + Real.exp (-x)) < 1 ∧
+    (0 ≤ x → Real.exp (-x) ≤ 1) ∧ (1 / (1 + Real.exp (-x)) ≤ Real.exp x) := by
+  have he : 0 < Real.exp (-x) := Real.exp_pos _
+  have h1 : 0 < 1 + Real.exp (-x) := by linarith
+  refine ⟨div_pos one_pos h1, ?_, fun hx => Real.exp_le_one_iff.mpr (by linarith), ?_⟩
+  · rw [div_lt_one h1]; linarith
+  · rw [div_le_iff₀ h1]
+    have : Real.exp x * Real.exp (-x) = 1 := by rw [← Real.exp_add]; simp
+    nlinarith [Real.exp_pos x]
+
+/-- sigmoid backward `g·s·(1−s)` multiplies numbers in `[0,1]` -/
+theorem sigmoid_backward_range (x : ℝ) :
+    0 < (1 / (1 + Real.exp (-x))) * (1 - 1 / (1 + Real.exp (-x))) ∧
+    (1 / (1 + Real.exp (-x))) * (1 - 1 / (1 + Real.exp (-x))) ≤ 1 / 4 := by
+  have he : 0 < Real.exp (-x) := Real.exp_pos _
+  have h1 : 0 < 1 + Real.exp (-x) := by linarith
+  have hs0 : 0 < 1 / (1 + Real.exp (-x)) := div_pos one_pos h1
+  have hs1 : 1 / (1 + Real.exp (-x)) < 1 := by rw [div_lt_one h1]; linarith
+  constructor
+  · exact mul_pos hs0 (by linarith)
+  · nlinarith [sq_nonneg (1 / (1 + Real.exp (-x)) - 1 / 2)]
+
+/-- tanh and its backward factor `1 − tanh²` stay in `[-1, 1]` / `[0, 1]` -/
+theorem tanh_range (x : ℝ) : -1 < Real.tanh x ∧ Real.tanh x < 1 ∧ 0 < 1 - Real.tanh x ^ 2 ∧ 1 - Real.tanh x ^ 2 ≤ 1 := by
+  have h1 := Real.neg_one_lt_tanh x
+  have h2 := Real.tanh_lt_one x
+  refine ⟨h1, h2, ?_, ?_⟩
+  · nlinarith
+  · nlinarith [sq_nonneg (Real.tanh x)]
+
+/-- **selu backward** evaluates `exp(min(x, 0))`, which is in `(0, 1]` for every `x` (the unguarded
+    `exp(x)·(x ≤ 0)` would be `∞·0` for large `x`). -/
+theorem selu_backward_bounded (x : ℝ) : 0 < Real.exp (min x 0) ∧ Real.exp (min x 0) ≤ 1 := by
+  exact ⟨Real.exp_pos _, Real.exp_le_one_iff.mpr (min_le_right _ _)⟩
+
+/-- **BCE-with-logits**: with the shift `tn = max(−x, 0)` both exponents `−tn` and `−x−tn` are ≤ 0
+    (so both `exp` are in `(0,1]` and their sum in `[1,2]`), and the value is exactly
+    `(1−y)·x + log(1 + exp(−x))`. -/
+theorem bce_logits_shift_nonpos (x y : ℝ) :
+    let tn := max (-x) 0;
+    (-tn ≤ 0) ∧ -x - tn ≤ 0 ∧ 1 ≤ Real.exp (-tn) + Real.exp (-x - tn) ∧ Real.exp (-tn) + Real.exp (-x - tn) ≤ 2 ∧
+    (1 - y) * x + tn + Real.log (Real.exp (-tn) + Real.exp (-x - tn)) = (1 - y) * x + Real.log (1 + Real.exp (-x)) := by
+  intro tn
+  have key : ∀ t : ℝ, t + Real.log (Real.exp (-t) + Real.exp (-x - t)) = Real.log (1 + Real.exp (-x)) := by
+    intro t
+    have hpos : 0 < Real.exp (-t) + Real.exp (-x - t) := add_pos (Real.exp_pos _) (Real.exp_pos _)
+    have : 1 + Real.exp (-x) = Real.exp t * (Real.exp (-t) + Real.exp (-x - t)) := by
+      rw [mul_add, ← Real.exp_add, ← Real.exp_add]
+      simp
+    rw [this, Real.log_mul (Real.exp_pos t).ne' hpos.ne', Real.log_exp]
+  have htn0 : 0 ≤ tn := le_max_right _ _
+  have htnx : -x ≤ tn := le_max_left _ _
+  refine ⟨by linarith, by linarith, ?_, ?_, ?_⟩
+  · by_cases hx : 0 ≤ x
+    · have : tn = 0 := max_eq_right (by linarith)
+      rw [this]
+      simp only [neg_zero, Real.exp_zero]
+      linarith [Real.exp_pos (-x - 0)]
+    · have : tn = -x := max_eq_left (by linarith)
+      rw [this]
+      have : -x - -x = 0 := by ring
+      rw [this, Real.exp_zero]
+      linarith [Real.exp_pos (- -x)]
+  · have h1 : Real.exp (-tn) ≤ 1 := Real.exp_le_one_iff.mpr (by linarith)
+    have h2 : Real.exp (-x - tn) ≤ 1 := Real.exp_le_one_iff.mpr (by linarith)
+    linarith
+  · rw [add_assoc, key tn]
+
+/-- **cross-entropy through log_softmax is exact**: `−(x_label − log Σ exp)`; no probability is ever
+    formed, so nothing underflows into a clipped logarithm. -/
+theorem cross_entropy_exact (xs : List ℝ) (hne : xs ≠ []) (m xl : ℝ) (hm : ∀ t ∈ xs, t ≤ m) (hmem : m ∈ xs) (hl : xl ∈ xs) :
+    -(xl - (m + Real.log ((xs.map (fun t => Real.exp (t - m))).sum))) = Real.log ((xs.map Real.exp).sum) - xl ∧
+    0 ≤ Real.log ((xs.map Real.exp).sum) - xl := by
+  have hlog := log_shifted_sum xs hne m
+  refine ⟨by rw [hlog]; ring, ?_⟩
+  have h1 : Real.exp xl ≤ (xs.map Real.exp).sum :=
+    le_sum_map_of_mem xs Real.exp (fun t _ => (Real.exp_pos t).le) xl hl
+  have h2 := Real.log_le_log (Real.exp_pos xl) h1
+  rw [Real.log_exp] at h2
+  linarith
+
+/-! ### the model kernels, instantiated at ℝ, evaluate these formulas -/
+
+/-- `softmaxForward` at ℝ: every entry is `exp(x − M)/Σ exp(· − M)` with `M` the maximum of its fibre,
+    hence (by `softmax_shift_exact`) the mathematical softmax. -/
+theorem softmax_model_formula (a y : NDArray ℝ) (axis : Int) (h : softmaxForward a axis = some y) :
+    ∃ ax, normAxis a.shape.length axis = some ax ∧ y.shape = a.shape ∧
+      ∀ i, validIdx a.shape i →
+        y.get i = Real.exp (a.get i - fibreMax a ax i) / fibreSum (fun j => Real.exp (a.get j - fibreMax a ax j)) a.shape ax i := by
+  unfold softmaxForward at h
+  cases hax : normAxis a.shape.length axis with
+  | none => simp [hax] at h
+  | some ax =>
+    simp [hax] at h
+    obtain ⟨_, rfl⟩ := h
+    refine ⟨ax, rfl, rfl, fun i hi => ?_⟩
+    rw [get_ofFn _ _ _ hi]
+    rfl
+
 end Props.C09
